@@ -273,7 +273,8 @@ def run_case(case, rec, ssj=None, cache=None):
         return {'required': len(req)}
     if g == 'ov_q':
         q, pad, k = case['q'], case['padding'], case['size']
-        strs = [s_ for s_ in c03.universe('ab', case.get('maxlen', 3)) if s_ != '']
+        strs = sorted(set(s_ for s_ in c03.universe('ab', case.get('maxlen', 3)) + c03.universe('a ', 2)
+                          if s_ != ''))      # includes whitespace-only values: tokens for a q-gram tokenizer
         L = T.table_spec(['id', 's'], [[i, s_] for i, s_ in enumerate(strs)], dtypes={'s': 'object'})
         R = T.table_spec(['id', 's'], [[i, s_] for i, s_ in enumerate(strs)], dtypes={'s': 'object'})
         tok = {'kind': 'qgram', 'q': q, 'padding': pad, 'return_set': True}
